@@ -152,6 +152,58 @@ pub fn full_bucket_case(r: &mut Rng) -> String {
     )
 }
 
+/// more than 200 nodes in one accumulator / one table: twelve buckets of insecure nodes on distinct public addresses
+/// and a handful of secure nodes (exempt addresses, or BEP42-valid ids) that are offered late and lie far from the
+/// target by XOR distance: they still come first
+pub fn crowd_case(r: &mut Rng, secure_last: bool) -> String {
+    let self_id = id20(r);
+    let target = id_at_distance(&self_id, *r.pick(&[160usize, 159, 152]), r);
+    let mut u: Vec<UNode> = Vec::new();
+    for b in 0..12usize {
+        for i in 0..19usize {
+            let ip = 0x2e00_0000u32 + ((b as u32) << 16) + ((i as u32) << 8) + 9;
+            u.push(UNode { id: id_at_distance(&self_id, 160 - b, r), ip, port: 1000 + i as u16 });
+        }
+    }
+    let n_insecure = u.len();
+    for j in 0..6usize {
+        let far = id_at_distance(&target, 160, r);
+        if j % 2 == 0 {
+            u.push(UNode { id: far, ip: EXEMPT_IPS[j % EXEMPT_IPS.len()], port: 2000 + j as u16 });
+        } else {
+            let ip = PUBLIC_IPS[j % PUBLIC_IPS.len()];
+            u.push(UNode { id: crate::c19::secure_id_for(ip, j as u8, r), ip, port: 2000 + j as u16 });
+        }
+    }
+    let mut order: Vec<usize> = (0..u.len()).collect();
+    if !secure_last {
+        r.shuffle(&mut order);
+    }
+    let mut ops: Vec<String> = Vec::new();
+    let mut cn = ClosestNodes::new(Id::from(target));
+    for (i, k) in order.iter().enumerate() {
+        cn.add(u[*k].node());
+        ops.push(format!("CAdd {}%nat", k));
+        if i + 1 == n_insecure {
+            ops.push(format!("CNodes {}", idx_list(&u, cn.nodes())));
+        }
+    }
+    ops.push(format!("CNodes {}", idx_list(&u, cn.nodes())));
+    for est in [0usize, 1000, 7_000_000] {
+        let got = cn.take_until_secure(est, 3);
+        ops.push(format!("CTake {} {} {}", expected_dk(est), 3, idx_list(&u, got)));
+    }
+    let mut t = RoutingTable::new(Id::from(self_id));
+    for k in &order {
+        t.add(u[*k].node());
+    }
+    let closest = t.closest(Id::from(target));
+    let nodes = t.to_owned_nodes();
+    let adds_s: Vec<String> = order.iter().map(|k| format!("{}%nat", k)).collect();
+    ops.push(format!("CTable {} [{}] {} {}", n_hex(&self_id), adds_s.join(";"), idx_list(&u, &closest), idx_list(&u, &nodes)));
+    format!("{{| t_target := {}; t_univ := {}; t_ops := [{}] |}}", n_hex(&target), univ_coq(&u), ops.join("; "))
+}
+
 pub fn generate(seed: u64, scale: usize) -> Cases {
     let mut r = Rng::new(seed ^ 0xC11);
     let mut cases = Cases::new();
@@ -160,6 +212,9 @@ pub fn generate(seed: u64, scale: usize) -> Cases {
     }
     for _ in 0..(4 * scale.max(1)) {
         cases.push("full_target_bucket", full_bucket_case(&mut r));
+    }
+    for k in 0..(2 * scale.max(1)) {
+        cases.push("crowd_over_200", crowd_case(&mut r, k % 2 == 0));
     }
     let sizes: &[usize] = &[0, 1, 2, 3, 5, 8, 13, 20, 21, 25, 40, 60];
     for rep in 0..(2 * scale.max(1)) {
